@@ -103,6 +103,20 @@ def gen(rng, tier):  # noqa: F811
         yield {'trajs': trajs, 'lag': 1, 'S': [present[0]], 'F': [present[-1]], 'equal': False, 'mono': [rng.randint(1, 3), rng.randint(-5, 5)],
                'bij': dict(zip(map(str, present), perm)), 'widths': fits, 'mixed': [rng.choice(fits) for _t in trajs],
                'alpha': 'index-wide', 'light': True, 'mono2': _mono_onto(present, sorted(rng.sample(range(-40, 40), len(present))))}
+    for _ in range(G.budget(2) if tier == 'quick' else 40):
+        # every trajectory an int8 array, contiguous labels from a negative start, span above 127 (e.g. -100..100)
+        lo = rng.randint(-120, -60)
+        hi = rng.randint(lo + 130, 127)
+        labs = list(range(lo, hi + 1))
+        order = labs[:]
+        rng.shuffle(order)
+        trajs = [order + G.traj(rng, labs, 60, sticky=0.3), G.traj(rng, labs, 80, sticky=0.3)]
+        present = sorted({v for t in trajs for v in t})
+        perm = present[:]
+        rng.shuffle(perm)
+        yield {'trajs': trajs, 'lag': 1, 'S': [present[0]], 'F': [present[-1]], 'equal': False, 'mono': [1, rng.randint(0, 5)],
+               'bij': dict(zip(map(str, present), perm)), 'widths': ['int8', 'int64'], 'mixed': ['int8', 'int8'],
+               'alpha': 'int8-negative-contiguous', 'light': True, 'mono2': _mono_onto(present, list(range(len(present))))}
     for _ in range(G.budget(16) if tier == 'quick' else 300):
         # several trajectories of ONE frame each (2-d shape (N, 1)) and short equal-length sets
         labs, akind = G.alphabet(rng, k=rng.randint(2, 3))
@@ -168,12 +182,15 @@ def impl(case):
             # the same object with the flag flipped must answer like a fresh object built with that flag
             Mm = [np.array([f[v] for v in t]) for t in trajs]
             ref = mh.LumpedStateTraj(Mm, [np.array(t) for t in trajs], positive=True).estimate_markov_model(lag)[0]
+            # (re-wrapping the object is documented to hand back the same object, untouched)
+            wrapped = mh.LumpedStateTraj(mh.LumpedStateTraj(Mm, [np.array(t) for t in trajs], positive=True))
+            rewrap_ok = bool(wrapped.positive is True and np.array_equal(wrapped.estimate_markov_model(lag)[0], ref))
             lt.positive = True
             flipped = lt.estimate_markov_model(lag)[0]
             lt.positive = False
             back = lt.estimate_markov_model(lag)[0]
             base0 = mh.LumpedStateTraj(Mm, [np.array(t) for t in trajs]).estimate_markov_model(lag)[0]
-            out['lumped']['flip_ok'] = bool(np.array_equal(flipped, ref) and np.array_equal(back, base0))
+            out['lumped']['flip_ok'] = bool(np.array_equal(flipped, ref) and np.array_equal(back, base0) and rewrap_ok)
         except Exception as exc:  # noqa
             out['lumped']['flip_ok'] = None
         try:
